@@ -55,6 +55,9 @@ pub enum Case {
         steps: Vec<FillStep>,
         /// go through `&mut FrameBuf` / the `(FrameBuf, Context)` tuple instead of the buffer itself
         via_tuple: bool,
+        /// the buffer was created with this size and `resize`d to `capacity` before the first fill
+        #[serde(default)]
+        resize_from: Option<usize>,
     },
     Context {
         channels: usize,
@@ -214,11 +217,15 @@ fn exec_framebuf(
     data_seed: u64,
     steps: &[FillStep],
     via_tuple: bool,
+    resize_from: Option<usize>,
     stats: &mut Stats,
 ) -> Result<Option<Violation>, String> {
     let si = StreamInfo::new(44100, channels, bits).map_err(|e| format!("HARNESS: stream info: {e}"))?;
     let mut r = Rng::new(data_seed);
-    let mut fb = FrameBuf::with_size(channels, capacity).map_err(|e| format!("HARNESS: framebuf: {e}"))?;
+    let mut fb = FrameBuf::with_size(channels, resize_from.unwrap_or(capacity)).map_err(|e| format!("HARNESS: framebuf: {e}"))?;
+    if resize_from.is_some() {
+        fb.resize(capacity);
+    }
     let mut ctx = Context::new(bits, channels);
     for (i, st) in steps.iter().enumerate() {
         if i == steps.len() / 2 && i > 0 && data_seed % 3 == 0 {
@@ -350,7 +357,8 @@ pub fn exec_case(case: &Case, stats: &mut Stats) -> Result<Option<Violation>, St
             data_seed,
             steps,
             via_tuple,
-        } => exec_framebuf(case, *channels, *bits, *capacity, cfg, *data_seed, steps, *via_tuple, stats),
+            resize_from,
+        } => exec_framebuf(case, *channels, *bits, *capacity, cfg, *data_seed, steps, *via_tuple, *resize_from, stats),
         Case::Context {
             channels,
             bits,
@@ -426,6 +434,7 @@ pub fn gen_case(seed: u64, index: u64) -> Case {
                 data_seed: r.next_u64(),
                 steps: gen_steps(&mut r, capacity, &choices),
                 via_tuple: r.chance(0.4),
+                resize_from: if r.chance(0.25) { Some(*r.pick(CAPS)).filter(|f| *f != capacity) } else { None },
             }
         }
         _ => {
